@@ -14,6 +14,7 @@
 From Coq Require Import QArith List.
 
 From WSI Require Import Params ParamLaws CtorLaws.
+From WSI Require Vqip Tank Arc QTank Distrib Kinds TimeArea Leak Wtw OverrideLaws.
 From WSI.gen Require Import GenCtors.
 Import ListNotations.
 Open Scope Q_scope.
@@ -110,3 +111,35 @@ Example C15_world_reachable :
   (1 < length (insts w))%nat /\ (2 < length (insts w))%nat /\ view (wstep false w (WOverride 1 [Some 5])) 1 = [Some 5; Some 2]
   /\ view (wstep false w (WOverride 1 [Some 5])) 2 = [Some 1].
 Proof. vm_compute. repeat split; repeat constructor. Qed.
+
+(* node models (coq/TimeArea.v, Leak.v, Wtw.v; tied by the families tarea, leak, wtw, which override nodes that have been
+   used and compare every later operation): an override sets exactly what it names and keeps what the node holds, is
+   idempotent, the last one wins, derived quantities follow *)
+Theorem C15_sewer_override : forall S (n : TimeArea.qnode S) cap pt ta,
+  let n' := TimeArea.sw_override S n cap pt ta in
+  QTank.s_cap (QTank.qt_s (TimeArea.qn_t S n')) = cap /\ TimeArea.qn_pt S n' = pt /\ TimeArea.qn_ta S n' = ta /\
+  QTank.s_sto (QTank.qt_s (TimeArea.qn_t S n')) = QTank.s_sto (QTank.qt_s (TimeArea.qn_t S n)) /\
+  QTank.s_act (QTank.qt_s (TimeArea.qn_t S n')) = QTank.s_act (QTank.qt_s (TimeArea.qn_t S n)) /\
+  QTank.qt_l (TimeArea.qn_t S n') = QTank.qt_l (TimeArea.qn_t S n) /\
+  TimeArea.qn_outs S n' = TimeArea.qn_outs S n /\ TimeArea.qn_ins S n' = TimeArea.qn_ins S n.
+Proof. exact OverrideLaws.sw_override_sets. Qed.
+Print Assumptions C15_sewer_override.
+Theorem C15_node_overrides_idempotent : forall S (n : TimeArea.qnode S) cap pt ta (d : Leak.dnode S) l (w : Wtw.wwtw S) (f : Wtw.fwtw S) p tc,
+  TimeArea.sw_override S (TimeArea.sw_override S n cap pt ta) cap pt ta = TimeArea.sw_override S n cap pt ta /\
+  Leak.dn_override S (Leak.dn_override S d l) l = Leak.dn_override S d l /\
+  Wtw.ww_override S (Wtw.ww_override S w p tc) p tc = Wtw.ww_override S w p tc /\
+  Wtw.fw_override S (Wtw.fw_override S f p tc) p tc = Wtw.fw_override S f p tc.
+Proof. intros. repeat split. Qed.
+Print Assumptions C15_node_overrides_idempotent.
+Theorem C15_sewer_pipe_delay_is_not_the_tanks : forall S (n : TimeArea.qnode S) cap pt ta,
+  Arc.l_n (QTank.qt_l (TimeArea.qn_t S (TimeArea.sw_override S n cap pt ta))) = Arc.l_n (QTank.qt_l (TimeArea.qn_t S n)).
+Proof. exact OverrideLaws.sw_override_keeps_tank_delay. Qed.
+Print Assumptions C15_sewer_pipe_delay_is_not_the_tanks.
+Theorem C15_leakage_overridden_to_zero_is_the_plain_junction : forall S (n : Leak.dnode S) (P : Arc.port S) maxiter l q,
+  Leak.dn_pull_set S P maxiter (Leak.dn_override S (Leak.dn_override S n l) 0) q =
+  match Distrib.pull_distributed S P maxiter None (Leak.dn_ins S n) q with
+  | None => None
+  | Some (ins', got, _) => Some (Leak.mkDN S ins' (Leak.dn_outs S n) 0, got)
+  end.
+Proof. exact OverrideLaws.dn_override_zero_plain. Qed.
+Print Assumptions C15_leakage_overridden_to_zero_is_the_plain_junction.
